@@ -134,7 +134,7 @@ def run_item(item):
                         "input": f"{U.key(a)}|{U.key(b)}",
                         "what": f"vf2pp_all_isomorphisms({U.describe(a)}, {U.describe(b)}, labels={mode}, stereo={stereo}, "
                                 f"stereo_change={change}): {v} {det}",
-                        "item": {"pool": item["pool"], "lo": i, "hi": i + 1, "tier": tier}, "detail": det})
+                        "item": item, "detail": det})
     if item["lo"] == 0:
         out["samples"].append({"pool": item["pool"], "rows": len(rows), "cols": len(cols),
                                "example": [U.describe(rows[-1]), U.describe(cols2[-1])]})
